@@ -10,7 +10,7 @@ META = dict(
                'transceiver.Transceiver.ready/power_event_handler/enable_fh', 'fake_pm.FakePM.measure', 'data_if.DATAInterface.set_hdr_ver/pick_hdr_ver', 'udp_link.UDPLink.sendto'],
     bounds=dict(all='ONE command from an ARBITRARY transceiver state: running, rx/tx tuning presence, hopping presence, header version 0/1, measurement interface presence (forked), all simulation parameters symbolic; '
                     'every verb of the two handlers plus an unknown verb, each with its accepted argument count(s) and count-1/count+1, integer arguments symbolic over [-2^31, 2^31] rendered in decimal; '
-                    'long SETFH: 64 channel pairs of 6- and 7-digit kHz values in one datagram through a socket stub that honours the receive size'),
+                    'SETFH effect on the frequency of every frame for old/new allocation lengths (0,2),(1,2),(3,1),(2,4),(5,3); long SETFH: 64 channel pairs of 6- and 7-digit kHz values in one datagram through a socket stub that honours the receive size'),
     stubs=['fake socket (recvfrom honours the size argument for concrete datagrams; for symbolic ropes the length is computed from digit counts and an over-long datagram is an obligation)', 'logging', 'random.randint -> value of documented range',
            'time.sleep (records the request; ValueError on a negative duration as CPython)', 'str/int/split/join/strip on decimal ropes'],
     outside=['arguments that are not decimal integers (C14)', 'datagrams without CMD prefix other than the probes listed', 'trxcon command composition through snprintf/vsnprintf (varargs, not encoded): command texts are written by the harness from the format strings of trx_if.c'],
@@ -33,6 +33,8 @@ def jobs(tier, seed):
     out.append(('noprefix', 'h_noprefix', {}))
     out.append(('setfh.long.6digit', 'h_setfh_long', dict(npairs=64, lo=100000, hi=999999)))
     out.append(('setfh.long.7digit', 'h_setfh_long', dict(npairs=62, lo=1000000, hi=2000000)))
+    for l1, l2 in ((0, 2), (1, 2), (3, 1), (2, 4), (5, 3)):
+        out.append(('setfh.effect.%d->%d' % (l1, l2), 'h_setfh_effect', dict(l1=l1, l2=l2)))
     from . import trxc
     for cmd in trxc.CMDS:
         out.append(('trxcon.accepts.%s' % cmd[4:].replace(' ', '_'), 'c_ctrl_ok', dict(cmd=cmd, status=0, extra='dbm' if 'MEASURE' in cmd else '')))
@@ -140,7 +142,7 @@ def h_cmd(ctx, verb, argc):
             if k == 'fh':
                 if want is None: ctx.check('state.fh', got is None)
                 elif isinstance(want, tuple):
-                    ctx.check('state.fh.set', got is not None and got is not pre['fh'])
+                    ctx.check('state.fh.set', got is not None)
                     if got is not None:
                         ctx.check('state.fh.hsn', eq(got.hsn, want[1])); ctx.check('state.fh.maio', eq(got.maio, want[2]))
                         ctx.check('state.fh.ma.len', len(got.ma) == len(want[3]), got=len(got.ma))
@@ -192,6 +194,31 @@ def h_setfh_long(ctx, npairs, lo, hi):
             ctx.check('fh.ma.len', len(t.fh.ma) == npairs, got=len(t.fh.ma))
             for i, (g, w) in enumerate(zip(t.fh.ma, fr)):
                 ctx.check('fh.ma[%d]' % i, band(eq(g[0], w[0] * 1000), eq(g[1], w[1] * 1000)))
+
+
+def h_setfh_effect(ctx, l1, l2):
+    """documented effect of SETFH whatever hopping configuration (l1 channels, 0 = none) was active before:
+    the receive/transmit frequency in every frame follows the NEW parameters (reference model of C07)"""
+    from .c07 import mai_ref
+    T = env.load(ctx, *TK)
+    with env.symbolic(ctx):
+        net, log, rnd = env.std_env(ctx, T)
+        t = mk_trx(ctx, T, 'T', 5700)
+        if l1: t.enable_fh(ctx.int('old.hsn', 0, 63), ctx.int('old.maio', 0, 63), [(ctx.int('old.rx%d' % i, 0, R), ctx.int('old.tx%d' % i, 0, R)) for i in range(l1)])
+        hsn = ctx.int('hsn', 0, 63); maio = ctx.int('maio', 0, 63)
+        fr = [(ctx.int('rx%d' % i, 0, R), ctx.int('tx%d' % i, 0, R)) for i in range(l2)]
+        args = [hsn, maio] + [v for p in fr for v in p]
+        with ctx.no_raise('handle_rx:no-exception'):
+            rsp = trxc_roundtrip(ctx, t, trxc_cmd(ctx, 'SETFH', *args))
+        check_rsp(ctx, 'SETFH', rsp, 'SETFH', 0, args)
+        fn = ctx.int('fn', 0, HYPER - 1)
+        with ctx.no_raise('resolve:no-exception'):
+            rxf = t.get_rx_freq(fn); txf = t.get_tx_freq(fn)
+        mai = mai_ref(fn, hsn, maio, l2)
+        for which, got in ((0, rxf), (1, txf)):
+            want = fr[-1][which] * 1000
+            for j in range(l2 - 2, -1, -1): want = ite(eq(mai, j), fr[j][which] * 1000, want)
+            ctx.check('%s-frequency-follows-new-parameters' % ('rx', 'tx')[which], eq(got, want))
 
 
 def run_job(hid, fname, shape, timeout_ms):
